@@ -83,6 +83,9 @@ type thread struct {
 	killed  bool
 	exited  chan struct{}
 	bg      bool // background thread (node housekeeping): see BackgroundExisting
+	chanBlocks int     // how many channel operations of this thread had to wait
+	pcs     [8]uintptr // call stack of the latest scheduling point (for deadlock signatures)
+	npcs    int
 }
 
 type abortSignal struct{}
@@ -101,6 +104,7 @@ type Exec struct {
 	Choices  []Choice
 	Steps    int
 	Deadlock string
+	DeadlockSig string // "deadlock:" + the functions in which threads are blocked on locks
 	Horizon  bool
 	Pruned   bool
 	Panic    string
@@ -199,6 +203,9 @@ func Point(kind OpKind, en func() bool) {
 	}
 	t.kind = kind
 	t.en = en
+	if kind == OpLock || kind == OpRLock {
+		t.npcs = runtime.Callers(2, t.pcs[:])
+	}
 	t.hash = mix(t.hash, uint64(kind)+0x100)
 	if r.trace {
 		r.x.Trace = append(r.x.Trace, fmt.Sprintf("t%d(%s):%s %s", t.id, t.name, kind, callerInfo()))
@@ -227,6 +234,7 @@ func (r *runtimeState) clockEligible() bool {
 // reschedule picks the next thread to run. exiting: the caller is finished and must not be
 // chosen or parked.
 func (r *runtimeState) reschedule(t *thread, exiting bool) {
+	firstIter := true
 	for {
 		if r.finished {
 			if exiting {
@@ -245,6 +253,12 @@ func (r *runtimeState) reschedule(t *thread, exiting bool) {
 		}
 		var list []*thread
 		selfEnabled := !exiting && r.enabled(t)
+		if firstIter {
+			firstIter = false
+			if !selfEnabled && !exiting && t.kind == OpChan {
+				t.chanBlocks++
+			}
+		}
 		if selfEnabled && !t.yielded {
 			list = append(list, t)
 		}
@@ -291,6 +305,7 @@ func (r *runtimeState) reschedule(t *thread, exiting bool) {
 			}
 			if idle == nil {
 				r.x.Deadlock = r.describeBlocked()
+				r.x.DeadlockSig = r.deadlockSig()
 				r.finish()
 				if exiting {
 					return
@@ -418,6 +433,41 @@ func (r *runtimeState) describeBlocked() string {
 		return "no threads"
 	}
 	return sb.String()
+}
+
+// deadlockSig names the functions in which threads sit blocked on a lock (the participants of a
+// lock cycle), so that two different deadlocks of one harness are two different findings.
+func (r *runtimeState) deadlockSig() string {
+	seen := map[string]bool{}
+	var fns []string
+	for _, u := range r.threads {
+		if u.done || (u.kind != OpLock && u.kind != OpRLock) || u.npcs == 0 {
+			continue
+		}
+		frames := runtime.CallersFrames(u.pcs[:u.npcs])
+		for {
+			f, more := frames.Next()
+			if f.Function != "" && !strings.Contains(f.Function, "zzverif/") {
+				fn := f.Function
+				if i := strings.LastIndex(fn, "/"); i >= 0 {
+					fn = fn[i+1:]
+				}
+				if !seen[fn] {
+					seen[fn] = true
+					fns = append(fns, fn)
+				}
+				break
+			}
+			if !more {
+				break
+			}
+		}
+	}
+	if len(fns) == 0 {
+		return "deadlock"
+	}
+	sort.Strings(fns)
+	return "deadlock:" + strings.Join(fns, "+")
 }
 
 // choose records/replays a choice with n alternatives.
@@ -758,6 +808,16 @@ func Visible() {
 		return
 	}
 	Point(OpOther, nil)
+}
+
+// ChanBlocks reports how many channel operations (receive, send, select without default) of the
+// calling thread found nothing ready and had to wait, so far in this execution. Harnesses use the
+// difference around a call to learn whether the call parked on a channel (e.g. a wait gate).
+func ChanBlocks() int {
+	if !Active() {
+		return 0
+	}
+	return rt.cur.chanBlocks
 }
 
 // GlobalPoint is the scheduling point the rewriter inserts before every statement that touches
